@@ -161,6 +161,48 @@ def strat_equal(draw):
     return inv
 
 
+def enum_equal(tier):
+    """boundary graphs through every graph-taking sub-command: the null graph, one vertex, one edge, for each graph argument"""
+    from cnfgen.formula.cnf import CNF
+    S = [{'n': 0, 'edges': []}, {'n': 1, 'edges': []}, {'n': 2, 'edges': [[1, 2]]}, {'n': 3, 'edges': [[1, 3]]}]
+    D = [{'n': 0, 'edges': []}, {'n': 1, 'edges': []}, {'n': 3, 'edges': [[1, 3], [2, 3]]}]
+    Bp = [{'L': 1, 'R': 1, 'edges': []}, {'L': 1, 'R': 1, 'edges': [[1, 1]]}, {'L': 2, 'R': 1, 'edges': [[1, 1], [2, 1]]}]
+    cands = []
+    for g in S:
+        g = dict(g, **{'as': 'cnfgen'})
+        cands += [('kcolor', {'k': 2, 'G': g}), ('domset', {'d': 1, 'G': g, 'alternative': False}), ('domset', {'d': 2, 'G': g, 'alternative': True}),
+                  ('tiling', {'G': g}), ('matching', {'G': g}), ('kclique', {'k': 2, 'G': g, 'nosym': False}), ('kclique', {'k': 0, 'G': g, 'nosym': True}),
+                  ('kcliquebin', {'k': 2, 'G': g}), ('ramlb', {'k': 2, 's': 2, 'G': g}), ('op', {'G': g, 'flag': [], 'plant': False}),
+                  ('op', {'G': g, 'flag': ['--total'], 'plant': True}), ('iso', {'G': g, 'G2': None})]
+        if g['n'] >= 1:
+            cands += [('tseitin', {'G': g, 'charge': c}) for c in ('first', 'zero', 'one')]
+        for h in S:
+            h = dict(h, **{'as': 'cnfgen'})
+            cands += [('iso', {'G': g, 'G2': h}), ('subgraph', {'G': g, 'H': h})]
+    for d in D:
+        d = dict(d, **{'as': 'cnfgen'})
+        cands += [('peb', {'D': d}), ('stone', {'s': 1, 'D': d}), ('stone', {'s': 2, 'D': d})]
+    for b in Bp:
+        b = dict(b, **{'as': 'cnfgen'})
+        cands += [('php', {'B': b, 'functional': False, 'onto': False}), ('php', {'B': b, 'functional': True, 'onto': True}),
+                  ('subsetcard', {'B': b, 'equal': False}), ('subsetcard', {'B': b, 'equal': True})]
+    k = 0
+    for name, p in cands:
+        for i, f in enumerate(catalog.FAMILIES):
+            if f.name != name or f.lib is None:
+                continue
+            try:
+                f.lib(p, CNF)
+            except KeyError:
+                continue          # another form of the same sub-command
+            except Exception:     # noqa: the library refuses this boundary value; the generated part covers refusals
+                break
+            for tool in ('cnfgen', 'pbgen'):
+                k += 1
+                yield {'fam': i, 'p': p, 'tool': tool, 'chain': [['shuffle']] if k % 4 == 0 else [], 'seed': k, 'outopts': [[], ['-q']][k % 2]}
+            break
+
+
 # ---------------------------------------------------------------------------
 # seeded random families: --seed s == random.seed(s); library call
 
@@ -473,8 +515,8 @@ def strat_text(draw):
 NAMES = sorted(set(f.name for f in catalog.FAMILIES if f.lib is not None))
 
 SUBCHECKS = [
-    SubCheck('equal', run_equal, strategy=strat_equal, quick=900, thorough=50000,
-             rule="every deterministic sub-command of the catalogue with every option, graph arguments as harness-written files, for cnfgen (with -T chains of length 0..3: every substitution, lifting, flip, none, shuffle variants, xor/maj compression with an explicit graph; chain size bounded by construction) and pbgen; oracle: cli(mode='formula') has the same class, variable count, names and row list as the library call (transformations applied left to right under the same seed), and one 'transformation i' header entry per step; non-trivial: an option or a chain",
+    SubCheck('equal', run_equal, strategy=strat_equal, enumerate_cases=enum_equal, quick=900, thorough=50000,
+             rule="enumerated: every graph-taking sub-command on boundary graphs (null graph, one vertex, one edge; every pair of them for iso -e and subgraph; empty / one-vertex / three-vertex dags; 1x1 and 2x1 bipartite graphs) through both tools; generated: every deterministic sub-command of the catalogue with every option, graph arguments as harness-written files, for cnfgen (with -T chains of length 0..3: every substitution, lifting, flip, none, shuffle variants, xor/maj compression with an explicit graph; chain size bounded by construction) and pbgen; oracle: cli(mode='formula') has the same class, variable count, names and row list as the library call (transformations applied left to right under the same seed), and one 'transformation i' header entry per step; non-trivial: an option or a chain",
              required_labels=NAMES + ['pbgen', 'cnfgen', 'chain>=2', 'second-graph', '--functional', '--onto', '--alternative',
                                       '--plant', '--total', '--smart', '--knuth2', '--knuth3', '--equal', '--no-symmetry-breaking',
                                       'T:shuffle', 'T:xorcompB', 'T:lift', 'T:ite']),
